@@ -326,8 +326,12 @@ func batchvisMain(a []string) {
 	}
 
 	// ---- E: overwrites during the unlocked scan phase of a Merge, then a power failure after the Merge has completed
-	{
-		db := open("e")
+	for _, viaBatch := range []bool{false, true} {
+		dn := "e"
+		if viaBatch {
+			dn = "f"
+		}
+		db := open(dn)
 		obs := map[string]string{}
 		var viol []string
 		must(db.Put([]byte("k"), []byte("old")))
@@ -368,32 +372,40 @@ func batchvisMain(a []string) {
 		go func() { mdone <- db.Merge() }()
 		<-paused
 		// acknowledged, not flushed (SyncStrategy No): the index now points at these records, Merge will not rewrite the old ones
-		must(db.Put([]byte("k"), []byte("new")))
-		must(db.Delete([]byte("j")))
+		if viaBatch {
+			// the same two writes as ONE batch created without Sync (the batch path keeps its own byte accounting)
+			b := db.NewBatch(kv.BatchOptions{Sync: false})
+			must(b.Put([]byte("k"), []byte("new")))
+			must(b.Delete([]byte("j")))
+			must(b.Commit())
+		} else {
+			must(db.Put([]byte("k"), []byte("new")))
+			must(db.Delete([]byte("j")))
+		}
 		close(resume)
 		err := <-mdone
 		verifhook.PointFn = nil
 		verifhook.IOFn = nil
 		obs["Merge"] = errClass(err)
 		// power failure now: every file of the data directory keeps its flushed prefix only
-		img := filepath.Join(base, "img-e")
-		copyDirSparse(filepath.Join(base, "e"), filepath.Join(img, "e"))
-		if _, err := os.Stat(filepath.Join(base, "e-merge")); err == nil {
-			copyDirSparse(filepath.Join(base, "e-merge"), filepath.Join(img, "e-merge"))
+		img := filepath.Join(base, "img-"+dn)
+		copyDirSparse(filepath.Join(base, dn), filepath.Join(img, dn))
+		if _, err := os.Stat(filepath.Join(base, dn+"-merge")); err == nil {
+			copyDirSparse(filepath.Join(base, dn+"-merge"), filepath.Join(img, dn+"-merge"))
 		}
 		iomu.Lock()
 		for name, w := range written {
-			if filepath.Dir(name) != filepath.Join(base, "e") {
+			if filepath.Dir(name) != filepath.Join(base, dn) {
 				continue
 			}
 			if sy := synced[name]; sy < w {
-				os.Truncate(filepath.Join(img, "e", filepath.Base(name)), sy)
+				os.Truncate(filepath.Join(img, dn, filepath.Base(name)), sy)
 				obs["cut "+filepath.Base(name)] = fmt.Sprintf("%d of %d bytes survive", sy, w)
 			}
 		}
 		iomu.Unlock()
 		o := kv.DefaultOptions
-		o.DirPath = filepath.Join(img, "e")
+		o.DirPath = filepath.Join(img, dn)
 		o.DataFileSize = 4096
 		o.IndexType = int8(idx)
 		o.ShardNum = 4
@@ -408,7 +420,7 @@ func batchvisMain(a []string) {
 			obs["k after power failure + restart"] = gk
 			obs["j after power failure + restart"] = gj
 			// acknowledged history: k=old, j=jold (flushed) ; k=new ; del j.  Recovery must show a prefix that contains the flushed part
-			ok := (gk == "val:old" && gj == "val:jold") || (gk == "val:new" && gj == "val:jold") || (gk == "val:new" && gj == "notfound")
+			ok := (gk == "val:old" && gj == "val:jold") || (gk == "val:new" && gj == "val:jold" && !viaBatch) || (gk == "val:new" && gj == "notfound")
 			if !ok {
 				viol = append(viol, "writes that raced with a Merge, power failure after the Merge completed: k -> "+gk+", j -> "+gj+
 					"; the flushed history is k=old, j=jold, then k=new, then delete j - no prefix of it gives that (the Merge dropped the flushed records its output was meant to replace, and the records that superseded them were not flushed yet)")
@@ -416,7 +428,11 @@ func batchvisMain(a []string) {
 			db2.Close()
 		}
 		db.Close()
-		enc.Encode(map[string]interface{}{"scenario": "E writes racing with a Merge, power failure after it", "observations": obs, "violations": viol})
+		name := "E writes racing with a Merge, power failure after it"
+		if viaBatch {
+			name = "F a batch without Sync racing with a Merge, power failure after it"
+		}
+		enc.Encode(map[string]interface{}{"scenario": name, "observations": obs, "violations": viol})
 	}
 }
 
